@@ -17,6 +17,10 @@ Explain(e) ==
     IN [l |-> l, defects |-> d, canon |-> CanonicalDefaults(f),
         exp |-> IF d = {} THEN AcceptedExp(f, e.allow, (Want(e) \cup {"ok"}) \cap DOMAIN e.out) ELSE [ok |-> FALSE],
         laws |-> IF "snap" \in DOMAIN e.out THEN ViewLaws(e.out.snap) ELSE TRUE]
+  ELSE IF e.op = "xlate" /\ "panic" \notin DOMAIN e.out THEN
+    \* domain = FALSE: the generator's pair is not what the specification calls a translation (a harness defect, not a finding)
+    [l |-> l, defects |-> {}, canon |-> TRUE, laws |-> TRUE, domain |-> XlateWellFormed(e),
+     exp |-> IF XlateWellFormed(e) THEN XlateExpect(e) ELSE [none |-> TRUE]]
   ELSE [l |-> l, defects |-> {}, canon |-> TRUE, exp |-> [none |-> TRUE], laws |-> TRUE]
 Next == /\ l <= Len(Trace) /\ l' = l + 1
         /\ PrintT("@@" \o ToJson(Explain(Trace[l])))
